@@ -212,3 +212,142 @@ def r5_rounding_siblings(ck, P):
                     ck.ok(R, '%s: (+0x8000) >> 16 at %s' % (f.name, x.loc()))
                 else:
                     ck.violation(R, f.name, 'rounding constant', '%s rounds a 16.16 product with +%#x before >> 16; its siblings use +0x8000 (round to nearest)' % (f.name, k[0]), x.loc())
+
+
+def _fc(o):
+    """exact value of a floating constant operand ['fc', text, hexbits]"""
+    import struct
+    from fractions import Fraction
+    h = o[2]
+    if len(h) == 16:
+        return Fraction(struct.unpack('>d', bytes.fromhex(h))[0])
+    if len(h) == 8:
+        return Fraction(struct.unpack('>f', bytes.fromhex(h))[0])
+    return Fraction(float(o[1]))
+
+
+def _affine(f, o, depth=0):
+    """(scale, offset, base operand) of a double value that is scale*base + offset up to a final rounding to integer (floor/ceil/rint)"""
+    from fractions import Fraction
+    if depth > 12:
+        return None
+    if o[0] == 'fc':
+        return (Fraction(0), _fc(o), None)
+    x = f.v(o)
+    if x is None:
+        return (Fraction(1), Fraction(0), o)
+    if x.op in ('fpext', 'fptrunc'):
+        return _affine(f, x.a[0], depth + 1)
+    if x.op == 'call' and isinstance(x.callee, str) and x.callee.split('.')[:2] in (['llvm', 'floor'], ['llvm', 'ceil'], ['llvm', 'rint'], ['llvm', 'round'], ['llvm', 'nearbyint']):
+        r = _affine(f, x.a[0], depth + 1)
+        return r and (r[0], r[1], r[2], x.callee.split('.')[1])
+    if x.op == 'call' and isinstance(x.callee, str) and x.callee in ('floor', 'ceil', 'rint', 'round'):
+        r = _affine(f, x.a[0], depth + 1)
+        return r and (r[0], r[1], r[2], x.callee)
+    if x.op == 'call' and isinstance(x.callee, str) and x.callee.startswith('llvm.fmuladd'):
+        a, b, c = (_affine(f, y, depth + 1) for y in x.a[:3])
+        if not (a and b and c):
+            return None
+        if a[2] is None:
+            a, b = b, a
+        if b[2] is not None or c[2] is not None:
+            return None
+        return (a[0] * b[1], a[1] * b[1] + c[1], a[2])
+    if x.op in ('fmul', 'fadd', 'fsub'):
+        a, b = _affine(f, x.a[0], depth + 1), _affine(f, x.a[1], depth + 1)
+        if not (a and b):
+            return None
+        if x.op == 'fmul':
+            if a[2] is None:
+                a, b = b, a
+            if b[2] is not None:
+                return None
+            return (a[0] * b[1], a[1] * b[1], a[2])
+        sgn = 1 if x.op == 'fadd' else -1
+        if a[2] is not None and b[2] is not None:
+            return None
+        base = a[2] if a[2] is not None else b[2]
+        return (a[0] + sgn * b[0], a[1] + sgn * b[1], base)
+    return (Fraction(1), Fraction(0), o)
+
+
+def r6_float_to_fixed_guarded(ck, P):
+    """every double -> integer conversion of the matrix unit is preceded by range guards that keep the converted value representable"""
+    from fractions import Fraction
+    R = ck.rule('C11-R6', 'every floating-point to integer conversion in pixman-matrix.c converts scale*d + offset of a value d whose guards (comparisons with constants on every path to the conversion) keep the result inside the integer type: no wrapped fixed-point entry is stored', floor=1)
+    u = P.units.get('pixman-matrix.c')
+    if u is None:
+        ck.incomplete(R, 'pixman-matrix.c not in the build'); return
+    for f in u.functions.values():
+        for x in f.insts():
+            if x.op not in ('fptosi', 'fptoui'):
+                continue
+            ck.saw(f)
+            bits = _narrowest_use(f, x); signed = x.op == 'fptosi'
+            lo_t = Fraction(-(1 << (bits - 1))) if signed else Fraction(0)
+            hi_t = Fraction((1 << (bits - 1)) - 1) if signed else Fraction((1 << bits) - 1)
+            af = _affine(f, x.a[0])
+            if af is None or af[2] is None or af[0] <= 0:
+                ck.incomplete(R, '%s: conversion at %s is not scale*d + offset of one value' % (f.name, x.loc())); continue
+            scale, off, base = af[0], af[1], af[2]
+            rnd = af[3] if len(af) > 3 else 'trunc'
+            lo = None; hi = None     # accepted d: lo[0] (<|<=) d (<|<=) hi[0]; second member True = closed
+            for t, s_ in f.guard_edges(x.bb.id):
+                if t.op != 'br' or not t.a:
+                    continue
+                c = f.v(t.a[0])
+                if c is None or c.op != 'fcmp':
+                    continue
+                a0, a1 = c.a
+                pred = c.d['p']
+                if a0[0] == 'fc' and a1 == base:
+                    a0, a1 = a1, a0
+                    pred = {'olt': 'ogt', 'ole': 'oge', 'ogt': 'olt', 'oge': 'ole', 'ult': 'ugt', 'ule': 'uge', 'ugt': 'ult', 'uge': 'ule'}.get(pred, pred)
+                if a0 != base or a1[0] != 'fc':
+                    continue
+                k = _fc(a1)
+                holds = t.d['succ'][0] == s_       # the comparison is true on the edge towards the conversion
+                p = pred[1:]
+                # on this edge: d p k holds (or its negation)
+                if not holds:
+                    p = {'lt': 'ge', 'le': 'gt', 'gt': 'le', 'ge': 'lt'}.get(p)
+                if p in ('ge', 'gt'):
+                    cand = (k, p == 'ge')
+                    if lo is None or cand[0] > lo[0]:
+                        lo = cand
+                elif p in ('le', 'lt'):
+                    cand = (k, p == 'le')
+                    if hi is None or cand[0] < hi[0]:
+                        hi = cand
+            where = '%s (%s)' % (f.name, x.loc())
+            if lo is None or hi is None:
+                ck.violation(R, f.name, 'unguarded conversion to i%d' % bits, '%s converts a double to i%d with %s: the value is not bounded %s, so an out-of-range entry is stored wrapped instead of being refused' % (f.name, bits, 'no range guard' if lo is None and hi is None else 'a one-sided guard', 'below' if lo is None else 'above'), x.loc())
+                continue
+            # extreme converted values over the accepted interval (scale > 0); rounding to integer never leaves [floor(v), ceil(v)]
+            import math
+            vmax = scale * hi[0] + off; vmin = scale * lo[0] + off
+            top = math.floor(vmax) if rnd in ('floor', 'trunc') else math.ceil(vmax)
+            if not hi[1] and vmax == math.floor(vmax) and rnd in ('floor', 'trunc'):
+                top = vmax - 1                       # open bound exactly on an integer: that integer is not reached
+            bot = math.floor(vmin) if rnd in ('floor',) else math.ceil(vmin) if rnd in ('ceil',) else math.floor(vmin)
+            if top > hi_t or bot < lo_t:
+                ck.violation(R, f.name, 'conversion to i%d out of range' % bits,
+                             '%s accepts d in %s%s, %s%s and converts %s(d*%s + %s): the result reaches %s, outside [%s, %s]; such entries are stored wrapped instead of being refused' % (
+                                 f.name, '[' if lo[1] else '(', float(lo[0]), float(hi[0]), ']' if hi[1] else ')', rnd, float(scale), float(off), int(top) if top > hi_t else int(bot), int(lo_t), int(hi_t)), x.loc())
+            else:
+                ck.ok(R, where, 'd in %s%s, %s%s -> %s(d*%s+%s) within i%d' % ('[' if lo[1] else '(', float(lo[0]), float(hi[0]), ']' if hi[1] else ')', rnd, float(scale), float(off), bits))
+
+
+def _narrowest_use(f, x, seen=None):
+    """width the converted value finally keeps: the narrowest truncation among its transitive users through phi/select/min-max compares"""
+    seen = seen if seen is not None else set()
+    if x.i in seen:
+        return int(x.ty[1:]) if x.ty.startswith('i') else 64
+    seen.add(x.i)
+    w = int(x.ty[1:]) if x.ty.startswith('i') and x.ty[1:].isdigit() else 64
+    for y in f.users(x):
+        if y.op == 'trunc':
+            w = min(w, int(y.ty[1:]))
+        elif y.op in ('phi', 'select'):
+            w = min(w, _narrowest_use(f, y, seen))
+    return w
